@@ -78,6 +78,8 @@ def run(tier, seed):
     from checks import enginecommon
     enginecommon.histories(v, wd, "blocker", 3 if tier == "quick" else 4)
     netcommon.mc_and_replay(v, wd, "randr", 300 if tier == "quick" else 3000, False, workers=12, extra=["-seed", str(seed + 3000)])
+    # patterns inside fused rules (regex sets) and one pattern text under different anchorings in one engine
+    netcommon.mc_and_replay(v, wd, "c05", 2, False)
     return v.finish("model_checking",
                     "M1/M2: all pattern bodies of length 1..%d over {a,b,.,/,^,*} and over {a,+,(,.,/,^} x 3 left anchors x 2 right anchors x 30 URLs whose hosts repeat the anchor text; a pattern is non-trivial if it matches at least one URL of the universe. M3: seeded random patterns (len<=14, wider alphabet) x random URLs validated by TLC against the same Ideal operator" % maxlen,
                     exhaustive=True)
